@@ -42,6 +42,11 @@ class ByteStr:
     def binop(self, interp, st, op, other, reflected):
         import ast
 
+        if isinstance(other, (bytes, bytearray)):
+            m = z3.K(z3.IntSort(), z3.IntVal(0))
+            for k, v in enumerate(bytes(other)):
+                m = z3.Store(m, k, v)
+            other = ByteStr(len(other), m, "literal")
         if isinstance(op, ast.Add) and isinstance(other, ByteStr):
             a, b = (other, self) if reflected else (self, other)
             m = fresh_mem("cat")
